@@ -35,7 +35,7 @@ RECURSIVE FlattenArgs(_)
 FlattenArgs(args) == \* arrays contribute their elements row-major
     IF Len(args) = 0 THEN <<>>
     ELSE LET h == args[1] IN
-         (IF h.t = "arr" THEN FlattenArgs(FlattenArgs(h.v)) ELSE <<h>>) \o FlattenArgs(Tail(args))
+         (IF h.t = "arr" THEN ArrElems(h) ELSE <<h>>) \o FlattenArgs(Tail(args))
 
 RECURSIVE JoinTexts(_)
 JoinTexts(xs) == IF Len(xs) = 0 THEN <<>> ELSE ToText(xs[1]).v \o JoinTexts(Tail(xs))
